@@ -16,13 +16,15 @@ _ROT = (8, 1e-14)     # positions of the capped cylinder and of the six-quad box
 _ROTN = (8, 1e-15)    # their unit normals
 
 CFG = dict(
-    modules=["PolyVerif.Props.C18", "PolyVerif.Props.C18Connected"],
+    modules=["PolyVerif.Props.C18", "PolyVerif.Props.C18Connected", "PolyVerif.Props.C18Nodes"],
     # Transform.lean: the quaternion code (FromTheta, Rotate) the six-quad box and the cylinder's bottom cap are built with
     # PrimLoops.lean: loop nests / bounds / index expressions of UVSphere, UVSphereUnwelded, Hemisphere.UV, Circle.ToMesh, Cylinder.ToMesh
     gen=[dict(tool="facts", mode="c18.cube", out="CubeTable.lean"), dict(spec="transform.json", out="Transform.lean"),
          dict(tool="facts", mode="c18.loops", out="PrimLoops.lean"),
          # PrimAssembly.lean: cap placements of Cylinder.ToMesh, the six faces of Cube.UnweldedQuads (+ rotate helper), Quad.ToMesh vectors
-         dict(tool="facts", mode="c18.assembly", out="PrimAssembly.lean")],
+         dict(tool="facts", mode="c18.assembly", out="PrimAssembly.lean"),
+         # PrimNodes.lean: the Process() bodies of UvSphereNode / HemisphereNode / CylinderNode / CubeNode (defaults, clamps, constructor called)
+         dict(tool="facts", mode="c18.nodes", out="PrimNodes.lean")],
     # theorems: maintained by the C18 builder
     theorems=["uvSphere_closed", "uvSphereUnwelded_closed_mod_merge", "hemisphere_closed", "cylinder_closed_mod_merge",
               "cubeWelded_closed", "quadTris_eq_table", "cubeQuads_closed_mod_merge",
@@ -53,7 +55,10 @@ CFG = dict(
               # round 2 (Props/C18Connected.lean): FACE connectedness, all parameters
               "faceConnected_of_oneUmbrella_and_reach", "connected_checker_sound", "manifold_oracle_implies_faceConnected",
               "uvSphere_faceConnected", "hemisphere_faceConnected", "uvSphereUnwelded_faceConnected_mod_merge",
-              "cylinder_faceConnected_mod_merge", "cubeWelded_faceConnected", "cubeQuads_faceConnected_mod_merge"],
+              "cylinder_faceConnected_mod_merge", "cubeWelded_faceConnected", "cubeQuads_faceConnected_mod_merge",
+              # round 2 (Props/C18Nodes.lean): node wrappers regenerated (go/facts c18.nodes -> Gen/PrimNodes.lean)
+              "uvSphereNode_from_source", "hemisphereNode_from_source", "cylinderNode_from_source", "cubeNode_from_source",
+              "uvSphereNode_always_solid", "node_defaults_admissible"],
     streams=[dict(name="c18", n=dict(quick=30, thorough=60),
                   ulps={"c18.pos.sphere": _SIN, "c18.possample.sphere": _SIN, "c18.pos.sphereu": _SIN, "c18.pos.hemi": _SIN, "c18.nrm.sphere": _SINN,
                         "c18.pos.cyl": _ROT, "c18.nrm.cyl": _ROTN, "c18.pos.cubeq": _ROT, "c18.nrm.cubeq": _ROTN})],
